@@ -626,3 +626,16 @@ def pipeline_calls(prog: Program, fn: Func) -> List[Tuple[ast.Call, Func]]:
         if r and r[0] == "fn":
             out.append((n, r[1]))
     return out
+
+
+def returns_after(fn_node: ast.AST, loop: ast.AST):
+    """Return statements of the function that lie behind `loop` in source order and outside it - what the function
+    answers when the loop runs to its end (independent of whether the code is written with early exits or nesting)."""
+    inside = {id(x) for x in ast.walk(loop)}
+    end = getattr(loop, "end_lineno", loop.lineno)
+    return [r for r in walk_own(fn_node) if isinstance(r, ast.Return) and id(r) not in inside and r.lineno > end]
+
+
+def last_return(fn_node: ast.AST):
+    rets = [r for r in walk_own(fn_node) if isinstance(r, ast.Return)]
+    return max(rets, key=lambda r: (r.lineno, r.col_offset)) if rets else None
